@@ -62,6 +62,20 @@ Theorem C14_wellformed_accepted : forall fixed proxy def r a m f pa ph pf pe,
 Proof. exact wellformed_accepted. Qed.
 Print Assumptions C14_wellformed_accepted.
 
+(** a rule set is loaded as a whole or not at all: it is accepted iff every one
+    of its rules is, so one malformed rule rejects the set *)
+Theorem C14_ruleset_all_or_nothing : forall fixed proxy def rs effs,
+  load_rules fixed proxy def rs = Ok effs <->
+  Forall2 (fun r e => create_rule fixed proxy def r = Ok e) rs effs.
+Proof. exact ruleset_all_or_nothing. Qed.
+Print Assumptions C14_ruleset_all_or_nothing.
+
+Theorem C14_ruleset_one_bad_rejects : forall fixed proxy def rs1 r rs2,
+  (forall e, create_rule fixed proxy def r <> Ok e) ->
+  forall effs, load_rules fixed proxy def (rs1 ++ r :: rs2) <> Ok effs.
+Proof. exact ruleset_one_bad_rejects. Qed.
+Print Assumptions C14_ruleset_one_bad_rejects.
+
 (** non-vacuity: a partial default rule and a rule defining only a finalizer *)
 Example C14_nonvacuous :
   let au := {| s_authn := Some {| k_id := Some 1; k_ok := true |}; s_authz := None; s_ctx := None;
